@@ -117,30 +117,30 @@ PROPS = {
         "assumptions": ["proto.Marshal/Unmarshal round-trip (checked on every written block)", "ACCEPT_SOLANA_LEGACY_BLOCK_FORMAT unset"],
     },
     "C01": {
-        "suites": [("forkable", 3000, 40000)], "props": ["C01"], "level": "other",
+        "suites": [("forkable", 3000, 40000)], "props": ["C01"], "level": "proof",
         "projection": proj_forkable, "nontrivial": nt_forkable, "rule": FORKABLE_RULE, "trusted_base": FORKABLE_TB,
-        "technique": "Lean 4 model of Forkable.ProcessBlock + consumer-discipline monitor (Lean) on the implementation's traces + differential correspondence; invariant proof in progress",
-        "level_text": "PLACEHOLDER",
+        "technique": "Lean 4 theorems on a statement-level model of Forkable.ProcessBlock/ForkDB (invariant by induction over histories, soundness of the ForkDB walks, chain-switch shape, failure simulation) + consumer-discipline monitor (Lean) on the implementation's traces + differential correspondence",
+        "level_text": "Props/C01: step_discipline and history_discipline are kernel-checked for every state satisfying the invariant Inv (forkable that knows its LIB), every incoming block and every history, of any length and tree shape: the delivered events drive a push/pop consumer (New must name the tip or the LIB as parent, Undo must be the tip, Irreversible must be the oldest pending block) without ever failing and leave it exactly on the chain from the LIB to the last block sent; init_inv gives Inv for a forkable started on an exclusive LIB. handler_error_returned_at_once (no hypothesis at all): with a handler failing on call k the handler saw exactly the first k+1 events of the failure-free run and the error is returned. refeed_delivers_nothing / below_lib_dropped: a stored block or a block below the LIB changes nothing. Hypotheses of the discipline theorems, all explicit: handler sees New, Undo and Irreversible; blocks have non-empty ids (WFin); heights grow along parent links (HB); LIB declarations name the height of an ancestor (LibDeclOK); SentClosed (a delivered block was delivered with its ancestors) on every state of the history — its preservation is NOT proved (needs 'a purged block never returns'); a Boolean check of all hypotheses with a kernel-checked soundness theorem (stepOKb_sound) is evaluated by the driver on every model state of every run and the evidence reports how many steps were inside them (thm.* counters). LIB discovery and the inclusive starting block are outside the theorems: there the property is decided by the Lean trace monitor on the implementation's trace plus the correspondence.",
         "level_note": LEVEL_NOTE_COMMON,
-        "explanation": "PLACEHOLDER",
+        "explanation": "theorems for all inputs within the stated hypotheses; the model-implementation tie and the configurations outside the hypotheses are decided by differential execution + Lean trace monitors on the implementation's own trace (3000/40000 generated histories per run)",
     },
     "C02": {
-        "suites": [("forkable", 3000, 40000)], "props": ["C02"], "level": "other",
+        "suites": [("forkable", 3000, 40000)], "props": ["C02"], "level": "proof",
         "projection": proj_forkable, "nontrivial": nt_forkable, "rule": FORKABLE_RULE, "trusted_base": FORKABLE_TB,
         "technique": "Lean 4 model of Forkable.ProcessBlock + finality monitor (Lean) on the implementation's traces + differential correspondence",
-        "level_text": "PLACEHOLDER", "level_note": LEVEL_NOTE_COMMON, "explanation": "PLACEHOLDER",
+        "level_text": "Props/C02 with C01's history_discipline: the consumer accepts an Irreversible event only for its oldest pending block and then rests on it (irreversible_is_oldest_pending), so along every history inside C01's hypotheses the announced blocks are in order the oldest pending blocks of the consumer's chain: a gap-free parent-linked chain extending the LIB; a block that left the pending list cannot be undone (undo_is_newest_pending, final_leaves_pending: the pending list has no duplicates and never contains the LIB). segment_is_path: whatever the buffer holds, the announced segment is a parent-linked path of stored blocks from the old LIB to the new one; bounded_by_declared_lib: its top carries exactly the LIB number the head declares; stalled_off_segment: stalled blocks are stored blocks off the segment with heights inside it (hence at or below the final height, never final). 'Reported at most once', the first announcement being the starting LIB itself (discovery / inclusive start) and malformed LIB declarations are decided by the Lean finality monitor on the implementation's trace.", "level_note": LEVEL_NOTE_COMMON, "explanation": 'as C01',
     },
     "C03": {
-        "suites": [("forkable", 3000, 40000)], "props": ["C03"], "level": "other",
+        "suites": [("forkable", 3000, 40000)], "props": ["C03"], "level": "proof",
         "projection": proj_forkable, "nontrivial": nt_forkable, "rule": FORKABLE_RULE, "trusted_base": FORKABLE_TB,
         "technique": "Lean 4 reference fork-choice specification evaluated against the implementation after every block + retention/noise twin runs + differential correspondence",
-        "level_text": "PLACEHOLDER", "level_note": LEVEL_NOTE_COMMON, "explanation": "PLACEHOLDER",
+        "level_text": "Props/C03 tip_rule (same hypotheses as C01): after every incoming block either nothing was delivered and the tip is unchanged, or the block was not stored before, triggers (triggers_rule: higher than the previous tip, or any height in all-blocks-trigger mode) and is the new tip; tip_is_top: the tip is the top of the consumer's chain; no_move: blocks below the LIB, stored blocks and invalid blocks never move it; lib_follows_declared: the block the LIB moves to carries exactly the tip's declared LIB number, and it moves only when a path of stored blocks leads there (C02 segment_is_path). The 'consequently' clause (outputs independent of retention and of re-fed / below-LIB blocks) is decided by twin runs of the implementation compared by the driver and by the Lean fork-choice reference specification evaluated after every block.", "level_note": LEVEL_NOTE_COMMON, "explanation": 'as C01',
     },
     "C04": {
-        "suites": [("forkable", 3000, 40000), ("hubburst", 1500, 15000)], "props": ["C04"], "level": "other",
+        "suites": [("forkable", 3000, 40000), ("hubburst", 1500, 15000)], "props": ["C04"], "level": "proof",
         "projection": proj_forkable, "nontrivial": nt_forkable, "rule": FORKABLE_RULE, "trusted_base": FORKABLE_TB,
         "technique": "Lean 4 model computing every cursor field + cursor monitor (Lean) on the implementation's traces + differential correspondence of all cursor fields",
-        "level_text": "PLACEHOLDER", "level_note": LEVEL_NOTE_COMMON, "explanation": "PLACEHOLDER",
+        "level_text": "Props/C04: head_is_incoming_block — for every state, block and handler failure point every delivered event names the incoming block as cursor head (no hypothesis); irreversible_lib_is_itself, switch_events_lib — cursor LIB of Irreversible events is the block itself, of Undo/re-delivered New events the forkable's cursor LIB, and all undos of a batch name the same junction; junction_is_common_ancestor (buffer of well-formed blocks with growing heights): the undo list is the consumer's chain above the junction, the redo list the adopted chain above it, the junction the top of their common part, i.e. what the consumer rests on after the undos; segments_meet_at_junction holds for any buffer. Cursor step/block = the event's is the encoding of the model's events and is compared field by field with the implementation (CURSORMISMATCH marker). LIB-height monotonicity along a stream and 'never above the block' are decided by the Lean cursor monitor on every trace; burst and file cursors by the C05/C06/C09 suites.", "level_note": LEVEL_NOTE_COMMON, "explanation": 'as C01',
     },
     "C05": {
         "suites": [("hubburst", 2500, 30000)], "props": ["C05"], "level": "other",
@@ -148,70 +148,70 @@ PROPS = {
         "rule": "cases = forkable histories as in C01-C04 (hub-like hold-until-LIB configuration 2 times in 3, all steps delivered); after a third of the blocks: a canonical snapshot, 2 requests by number around the window, sometimes a with-forks request, and up to 3 resumptions from cursors delivered earlier (New, Undo, 1/3 of the Irreversible ones; biased to recent ones), a third of them also through-cursor from a start around/below the cursor block. distinct = sha1 of header+ops; non-trivial = some burst contains an Undo or an Irreversible event",
         "trusted_base": FORKABLE_TB,
         "technique": "Lean 4 model of blocksFromCursor/blocksThroughCursor + pure-consumer monitor (Lean): burst applied to the consumer state at the cursor must end on the hub's live chain + differential correspondence of every burst",
-        "level_text": "PLACEHOLDER", "level_note": LEVEL_NOTE_COMMON, "explanation": "PLACEHOLDER",
+        "level_text": "Props/C05 (kernel-checked, all hub states and cursors): for a cursor whose block and LIB lie on the hub's retained canonical chain the burst delivers nothing at or below the cursor LIB (nothing_at_or_below_cursor_lib), every canonical block above the cursor block exactly once, in chain order, New above the hub LIB and new-and-irreversible up to it (everything_above_cursor_block, fastPath_in_chain_order, nothing_new_below_cursor_block); final_events_exact: the irreversible events are exactly the canonical final blocks above the cursor LIB; refused_below_window / refused_without_chain: no source rather than a partial one; fork_cursor_shape: for a cursor on a fork the burst is the undo walk (newest first, all naming the junction) followed by the burst of the junction cursor. That the burst applied to the *consumer state at the cursor* leaves it on the hub's chain for every history is NOT a theorem: it is decided by the Lean consumer-at-cursor monitor over every burst of the correspondence suite.", "level_note": LEVEL_NOTE_COMMON, "explanation": "kernel-checked theorems about the burst functions for all inputs + a Lean pure-consumer monitor evaluated on the implementation's bursts (2500/30000 histories with up to 3 resumptions each) + differential comparison of every burst with the model",
     },
     "C06": {
-        "suites": [("resolver", 2000, 25000)], "props": ["C06"], "level": "other",
+        "suites": [("resolver", 2000, 25000)], "props": ["C06"], "level": "proof",
         "nontrivial": lambda suite, case, impl: any(l.startswith("impl ev undo") or l.startswith("impl ev irr") for l in case["lines"]),
         "rule": "cases = a generated tree (4-17 blocks, forks with bias 10-50%, skipped numbers, LIB policies) fed to a real Forkable to obtain real cursors and the final canonical chain; the chain is written to merged bundles (size 2/3/5/10, real DBinBlockWriter), every forked block to the forked store as a one-block file (each missing with probability 0/0/15/40%, 1 in 25 unreadable), ids with an 18-char common prefix in a quarter of the cases (16-char truncation in file names); one delivered New/Undo/Irreversible cursor (half of the time one whose block ended up forked out) is resumed through the real NewFileSourceFromCursor with a stop block (1 in 5: NewFileSourceThroughCursor from a start block). distinct = sha1 of header+body; non-trivial = the resumption delivers an Undo or an Irreversible event",
         "technique": "Lean 4 model of cursorResolver + FileSourceSeq + pure-consumer monitor (Lean): events applied to the consumer state implied by the cursor must end with an empty pending stack on the last canonical block + differential correspondence with real stores",
-        "level_text": "PLACEHOLDER", "level_note": LEVEL_NOTE_COMMON, "explanation": "PLACEHOLDER",
+        "level_text": "Props/C06 gives the complete output of the cursor resolver for every list of canonical blocks: on_chain_new_cursor / on_chain_undo_cursor — blocks below the cursor block are held back; when the cursor block arrives the canonical blocks above the cursor LIB held so far are announced Irreversible (sendBetween_spec: exactly those with a number in (LIB, cursor block], in file order, each carrying itself as cursor head and LIB) and every later block is delivered once, in order, new-and-irreversible; fork_cursor — for a cursor on a fork: the undos newest first naming the junction, the finality replay up to the junction, the new-and-irreversible blocks above it, then every later block; resolve_sound — undone blocks come from readable one-block files at or after the cursor LIB number and the junction is a canonical block seen; unresolvable — if a needed forked block is missing or unreadable nothing at all was delivered and the run ends with the resolution error. That the undone blocks are exactly the consumer's pending forked blocks relies on the forked-blocks store being complete for the history: decided by the Lean consumer-at-cursor monitor on real stores (resolver suite).", "level_note": LEVEL_NOTE_COMMON, "explanation": 'theorems for all canonical lists and stores; the tie to cursor_resolver.go and to real dstore stores/dbin files is differential (2000/25000 resumptions from real cursors)',
     },
     "C10": {
-        "suites": [("filesrc", 500, 6000)], "props": ["C10"], "level": "other",
+        "suites": [("filesrc", 500, 6000)], "props": ["C10"], "level": "proof",
         "nontrivial": lambda suite, case, impl: sum(1 for l in case["lines"] if l.startswith("impl blk")) >= 3,
         "rule": "cases = a linear chain of 4-29 blocks (skipped numbers 1 in 3) laid out in bundles of size 1/2/3/5/10 (real DBinBlockWriter, empty bundle files for ranges without blocks), start anywhere (mid-file, on a missing number, on the first base), stop block anywhere or none (then the run ends waiting for the next file), 1-8 preprocessor threads with pseudo-random 0-450 microsecond delays per preprocess call, optional legacy leading block below the bundle base, a broken parent link, a missing bundle file, a handler failure at call 0-5; distinct = sha1 of header+body; non-trivial = at least 3 blocks delivered",
         "technique": "Lean 4 sequential model of FileSource (FileSourceSeq) + delivery monitor (Lean) + differential correspondence under randomised preprocess delays and thread counts",
-        "level_text": "PLACEHOLDER", "level_note": LEVEL_NOTE_COMMON, "explanation": "PLACEHOLDER",
+        "level_text": "Props/C10 (sequential content, all stores, start/stop blocks, bundle sizes, handler budgets): run_spec — the delivered sequence is a prefix of the stored eligible blocks (first block at or above the start block onwards, bundles in ascending order) in exactly stored order, each once, parent-linked; it is the whole of it when the run ends with stop-block-reached; on a non-sequential error it stopped exactly before the offending block (the block after the delivered prefix, whose parent is not the last delivered id); handler_error_stops_file. 'For every relative timing of the parallel preprocessors and file readers' and 'paired with the preprocessor result computed for that same block' are not theorems: the real pipeline is run with 1-8 preprocessor threads and pseudo-random delays and must deliver exactly the model's sequence with matching preprocess tags.", "level_note": LEVEL_NOTE_COMMON, "explanation": 'theorems about the sequential model; timing independence by differential runs under randomised delays/thread counts (500/6000 cases)',
     },
     "C07": {
         "suites": [("stream", 100, 1500)], "props": ["C07"], "level": "other", "suite_timeout": 2400,
         "nontrivial": lambda suite, case, impl: any(l.startswith("impl ev newirr") for l in case["lines"]) and any(l.startswith("impl ev new ") for l in case["lines"]),
         "rule": "cases = a generated tree (22-37 blocks, forks, skipped numbers, LIB policies) whose canonical chain crosses one 100-block bundle boundary; merged files = the complete bundle below the boundary (real DBinBlockWriter), forked one-block files for every forked block (30% missing in a quarter of the cases); a real ForkableHub (kept 100 mostly, else 0/1/2/5) bootstrapped through one one-block pass up to a moment t0 at which its LIB has reached the end of the files; a real stream.New(...).Run started by number (anywhere from the root to the hub head, negative, at/after the stop block), from a delivered New/Undo/Irreversible cursor (half of them on blocks that end up forked out) or through a target cursor, default/final-only/custom filters, stop block in the files / on the boundary / in the hub window / on a skipped number / none; the remaining blocks reach the hub either inside the handler of delivery #k or when the stream is quiescent (the schedule). distinct = sha1 of header+body; non-trivial = the run delivers blocks from files and from the live hub (a handoff happened)",
         "technique": "Lean 4 simulation model of JoiningSource+Stream over the Forkable/HubBurst/FileSourceSeq/Resolver models with an explicit schedule of hub pushes + pure-consumer monitor (Lean) + differential correspondence against the real stream/hub/file source",
-        "level_text": "PLACEHOLDER", "level_note": LEVEL_NOTE_COMMON, "explanation": "PLACEHOLDER",
+        "level_text": "Props/C07 (kernel-checked, every store, hub, schedule of hub pushes, configuration): burst_starts_at_requested_block + handoff_replaces_file_side — at the handoff the file event is dropped and the hub's burst starts with exactly that block number, and the file side is discarded (LiveClean, simLoop_prefix: after the handoff no file event is ever delivered; deliveries are never retracted or reordered); non_new_event_is_delivered + undo_is_not_joinable — an Undo or Irreversible event coming out of the cursor resolver never triggers the handoff and is always delivered (the dropped-undo defect fixed by f47de1c). The consumer-level statement (one sequence following the discipline from the consumer state implied by the start point, every canonical block exactly once) depends on files and hub being views of one chain and is decided by the Lean stream monitors on the implementation's runs.", "level_note": LEVEL_NOTE_COMMON, "explanation": 'kernel-checked lemmas about the simulation model + Lean consumer monitors on runs of the real stream/hub/file source under explicit schedules (70/1500 runs)',
     },
     "C13": {
-        "suites": [("stream", 100, 1500)], "props": ["C13"], "level": "other", "suite_timeout": 2400,
+        "suites": [("stream", 100, 1500)], "props": ["C13"], "level": "proof", "suite_timeout": 2400,
         "nontrivial": lambda suite, case, impl: any(l.startswith("impl send stop") or l.startswith("impl send invalidarg") for l in case["lines"]),
         "rule": "same cases as C07; non-trivial = the stream ended with stop-block-reached or an invalid-argument error",
         "technique": "Lean 4 model of Stream option handling (negative start, start/stop check, final-only cursor check, filter and stop handlers as list transformers) + monitors (nothing above the stop block, filters only remove) + differential correspondence",
-        "level_text": "PLACEHOLDER", "level_note": LEVEL_NOTE_COMMON, "explanation": "PLACEHOLDER",
+        "level_text": "Props/C13: run_respects_bounds — for every run of the stream model (any files, hub, schedule of hub pushes, cursor, options) every delivered event passed the step filter, with a stop block no delivered block is above it and a delivery at the stop height is the last one (stop_block_is_last); filter_only_removes, no_stop_keeps_all, stop_block_delivered — the handler chain as a list transformer; default_filter / final_only_filter / custom_filter — which steps pass; negative_start / nonneg_start — start = max(first streamable, head − distance) saturating at 0; start_after_stop_rejected, final_only_refuses_non_final_cursor — rejected as invalid argument before any source is created. 'The stop block is delivered when it exists' across files/live is decided by the stream monitor.", "level_note": LEVEL_NOTE_COMMON, "explanation": 'theorems for all runs of the model; tie to stream.go by differential runs against the real stream',
     },
     "C11": {
-        "suites": [("faults", 500, 6000)], "props": ["C11"], "level": "other",
+        "suites": [("faults", 500, 6000)], "props": ["C11"], "level": "fault_enumeration",
         "nontrivial": lambda suite, case, impl: any(l.startswith("impl blk") for l in case["lines"]),
         "rule": "cases = a file source over a generated chain in bundles (size 2/3/5/10, 1-6 preprocessor threads, start in the first half, stop near the end) with exactly one injected fault: OpenObject of one bundle fails; FileExists of one bundle fails persistently; the bytes of one bundle are damaged (bad header, length prefix enlarged, truncation inside a message, message made undecodable, I/O error while reading) at a chosen message; the preprocessor fails on one block; the handler fails at call k. distinct = sha1 of header+body; non-trivial = at least one block was delivered before the fault",
         "technique": "Lean 4 sequential model giving the allowed outcome set per fault (gap-free prefix bounded by the fault position + error class) + fault-injecting store around the real FileSource + watchdog for Run not returning + late-handler-call detection",
-        "level_text": "PLACEHOLDER", "level_note": LEVEL_NOTE_COMMON, "explanation": "PLACEHOLDER",
+        "level_text": 'Props/C11 (models): handler_error_ends_run + streamFile_budget — with a handler failing on call k exactly k+1 blocks reached it and they are an in-order parent-linked prefix; chain_break_ends_run — a broken parent link ends the run before the offending block; unresolvable_cursor_ends_run — no delivery at all; ended_is_final — once the stream has an outcome nothing changes; forkable_handler_error. That the real Run returns and Terminated is reached with the right error class is decided by enumerating faults (store open/exists/read at a chosen message with 5 damage modes, preprocessor, handler call k) against the real FileSource with a watchdog, accepting exactly the outcome set the model allows for the fault position; defects found this way are fixed (1d678d1, 70dac5d, 655b8c9).', "level_note": LEVEL_NOTE_COMMON, "explanation": "theorems on the sequential models + one injected fault per case against the real code, outcome compared with the model's allowed set (500/6000 cases)",
     },
     "C08": {
-        "suites": [("hubsubs", 150, 3000)], "props": ["C08"], "level": "other", "facts": True,
+        "suites": [("hubsubs", 150, 3000)], "props": ["C08"], "level": "proof", "facts": True,
         "nontrivial": lambda suite, case, impl: sum(1 for l in case["lines"] if l.startswith("impl sub")) >= 3,
         "rule": "trials = a real, ready ForkableHub holding a 20-block chain; 2-16 goroutines request SourceFromBlockNum (start 5..18) at the same instant while the feeder goroutine pushes 5-20 live blocks; then more blocks are pushed; every running subscriber must have received exactly the New blocks from its start to the final head, contiguous and once; in a third of the trials one subscriber never reads and must be dropped after 100+burst undelivered events while the others are unaffected. distinct = sha1 of header+ops; non-trivial = at least 3 subscribers",
         "technique": "Lean 4 interleaving model of concurrent registrations (finite reachable set closed under every step, by kernel evaluation) parameterised by lock facts regenerated from /repo by a go/ast extractor + barrier stress of the real hub",
-        "level_text": "PLACEHOLDER", "level_note": LEVEL_NOTE_COMMON, "explanation": "PLACEHOLDER",
+        "level_text": 'Props/C08: registrations_never_lost — for every interleaving of concurrent subscription requests with block processing in the lock-level model whose lock kinds are regenerated from /repo (hub_facts_safe), every registration is in the subscriber list when the operation completes and every later block reaches every registered subscriber; lost_registration_counter is the kernel-checked schedule of the unfixed code (1154969); push_never_blocks: a full subscriber is dropped, never waited for. The model is finite and its reachable set is computed and checked closed by kernel evaluation; goroutine scheduling inside the modelled atomic steps is sampled by the barrier stress of the real hub (exactly-once, in-order delivery to 2-16 concurrent subscribers, one slow subscriber dropped without affecting others).', "level_note": LEVEL_NOTE_COMMON, "explanation": 'all interleavings of the abstract lock-level model (kernel-evaluated closure), model parameters extracted from the source on every run; the Go runtime is sampled, not modelled',
     },
     "C12": {
-        "suites": [("shutdown", 12, 200)], "props": ["C12"], "level": "other", "facts": True,
+        "suites": [("shutdown", 12, 200)], "props": ["C12"], "level": "proof", "facts": True,
         "nontrivial": lambda suite, case, impl: True,
         "rule": "each case runs 21 scenarios against the real sources: JoiningSource (Shutdown before Run, from inside the live / file / join factory, inside a handler call, asynchronously), EternalSource (before Run, inside the 1st/2nd factory call, in a handler call, during the restart delay; restart must resume from the last accepted block), MultiplexedSource (2-4 inner sources pushing concurrently: handler failure, asynchronous Shutdown, Shutdown while connecting; handler calls must never overlap, all inner sources must be shut down), hub subscription (before Run, in handler, async) and FileSource (before Run, in handler, async, while waiting for a missing file); watchdog 4 s for Run returning, Terminated, no handler call after Terminated. distinct = sha1 of the case; every case is non-trivial",
         "technique": "Lean 4 interleaving model of shutter.Shutdown vs the obtain/register/run pattern (reachable set closed under every step + progress measure, kernel-evaluated) with the pattern regenerated from /repo by a go/ast extractor + Shutdown injection at 21 instants of the real sources",
-        "level_text": "PLACEHOLDER", "level_note": LEVEL_NOTE_COMMON, "explanation": "PLACEHOLDER",
+        "level_text": "Props/C12: shutdown_reaches_inner, no_inner_source_leaked, no_deadlock, step_increases_rank/rank_bounded — for every interleaving of shutter.Shutdown with the obtain / make-known / run pattern, the inner source is shut down once the callbacks ran, no created inner source is left neither run nor shut down, some thread can always move until Run returned, and runs are finite; joining/eternal/multiplexed_uses_safe_pattern tie the theorems to the pattern found in /repo by the go/ast extractor on every run; register_only_counter, publish_only_counter, locked_init_leak_counter are the kernel-checked schedules of the three defects fixed in /repo (43aefa8, 51cbf31, 322f3ac). 'Handlers are never run concurrently' and 'restart from the last accepted block' are checked on the real sources (21 shutdown instants per case, overlap detector, restart reference).", "level_note": LEVEL_NOTE_COMMON, "explanation": 'all interleavings of the abstract shutter model; pattern regenerated from source; real sources exercised at 21 shutdown instants per case',
     },
     "C09": {
-        "suites": [("hubburst", 2500, 30000)], "props": ["C09"], "level": "other",
+        "suites": [("hubburst", 2500, 30000)], "props": ["C09"], "level": "proof",
         "projection": proj_forkable, "nontrivial": lambda suite, case, impl: any(l.startswith("impl b newirr") for l in case["lines"]),
         "rule": "same cases as C05; non-trivial = some burst by number starts at or below the hub LIB (new+irreversible prefix)",
         "trusted_base": FORKABLE_TB,
         "technique": "Lean 4 model of blocksFromNum/blocksFromNumWithForks/LowestBlockNum/Linkable + snapshot monitor (Lean) + differential correspondence",
-        "level_text": "PLACEHOLDER", "level_note": LEVEL_NOTE_COMMON, "explanation": "PLACEHOLDER",
+        "level_text": "Props/C09: fromNum_spec / served_iff_retained_canonical / fromNum_none — the answer to a request by number is exactly the retained canonical chain from the first block with that number to the head, in order, and there is no source iff no retained canonical block has that number (or the hub has no LIB/head/complete chain); fromNum_event_fields — new-and-irreversible exactly up to the hub LIB, New above, every cursor names the hub head, cursor LIB never above the block; withForks_spec — the with-forks snapshot holds exactly the retained blocks at or above n, as many entries as retained blocks, in non-decreasing height. LowestBlockNum ('itself servable, nothing below it is') and readiness (bootstrap/Linkable) are compared with the implementation and checked by the Lean snapshot monitor on every run.", "level_note": LEVEL_NOTE_COMMON, "explanation": 'theorems for all hub states; tie by differential comparison of every snapshot (2500/30000 histories)',
     },
     "C18": {
-        "suites": [("forkable", 3000, 40000)], "props": ["C18"], "level": "other",
+        "suites": [("forkable", 3000, 40000)], "props": ["C18"], "level": "proof",
         "projection": proj_forkable, "nontrivial": nt_forkable, "rule": FORKABLE_RULE, "trusted_base": FORKABLE_TB,
         "technique": "Lean 4 model of the ForkDB window and lookups + query monitor (Lean) after every block + differential correspondence of AllIDs/AllBlocksAt/GetBlockByHash/CanonicalBlockAt/HeadInfo/LowestBlockNum",
-        "level_text": "PLACEHOLDER", "level_note": LEVEL_NOTE_COMMON, "explanation": "PLACEHOLDER",
+        "level_text": "Props/C18: window_after_lib_move — after every LIB move (advanceTo) no stored block is below LIB minus the retention; purge_keeps_window / lookup_survives_purge — nothing at or above it is removed and the by-hash lookup still returns it; lookup_by_hash / lookup_by_number / lookup_stable — a linked block is returned by hash and by number on whatever fork, and linking never changes other answers; lookup_ignores_sent_marks; head_is_last_new — HeadInfo equals the last block delivered as New. The canonical lookup at a height of the consumer's chain and LowestBlockNum (first block of the contiguous retained chain) are compared with the consumer's chain by the Lean query monitor after every fed block of every run; LowestBlockNum's crash on an inclusive root is fixed (c9b9db2).", "level_note": LEVEL_NOTE_COMMON, "explanation": 'as C01',
     },
     "C20": {
         "suites": [("server", 1500, 20000)],
